@@ -44,10 +44,11 @@ def solve_law_for_y(mix, case, kw, mode, pf, J, P):
         y0, y1 = yJ, min(max(yJ + 1e-4, 1e-9), 1 - 1e-9)
         try:
             f0, f1 = resid(y0, basis)[0], resid(y1, basis)[0]
-            for _ in range(60):
+            for it in range(60):
                 if f1 == f0:
-                    y1 = yJ  # the law does not depend on y here (e.g. zero permeate pressure): every y satisfies it equally
-                    break
+                    if it == 0:
+                        y1 = yJ  # the law does not depend on y here (e.g. zero permeate pressure): every y satisfies it equally
+                    break  # later: converged (two iterates with identical residual)
                 y2 = y1 - f1 * (y1 - y0) / (f1 - f0)
                 if not (0.0 <= y2 <= 1.0):
                     break
